@@ -44,46 +44,7 @@ class LineCounter:
         return self.local
 
 
-def fingerprint(root, limit=200000):
-    """structural fingerprint of the compiled type graph (ids replaced by visit order)"""
-    import types
-    seen = {}
-    out = []
-    stack = [root]
-    n = 0
-    while stack:
-        o = stack.pop()
-        n += 1
-        if n > limit:
-            break
-        if isinstance(o, (str, bytes, int, float, bool, type(None))):
-            out.append(repr(o))
-            continue
-        if isinstance(o, bytearray):
-            out.append('ba' + bytes(o).hex())
-            continue
-        if id(o) in seen:
-            out.append('@%d' % seen[id(o)])
-            continue
-        seen[id(o)] = len(seen)
-        if isinstance(o, dict):
-            out.append('{%d' % len(o))
-            for k in sorted(o, key=repr):
-                stack.append(o[k])
-                out.append(repr(k) if isinstance(k, (str, bytes, int, type(None))) else type(k).__name__)
-        elif isinstance(o, (list, tuple)):
-            out.append('[%d' % len(o))
-            stack.extend(reversed(o))
-        elif isinstance(o, (set, frozenset)):
-            out.append('s%d' % len(o))
-        elif isinstance(o, (types.FunctionType, types.MethodType, type, types.ModuleType)):
-            out.append('f')
-        else:
-            out.append(type(o).__name__)
-            d = getattr(o, '__dict__', None)
-            if d is not None:
-                stack.append(d)
-    return hash(tuple(out))
+from lib.c08_replay import fingerprint, _replay_decode  # noqa: E402,F401
 
 
 SENTINELS = {}
@@ -300,45 +261,6 @@ def make_harness(job):
 
 
 # ---- concrete replays (pristine interpreter, resource limits) -------------------------------
-def _replay_decode(arg):
-    """runs inside a fresh interpreter with the unmodified library"""
-    import sys
-    import asn1tools
-    import corpus
-    tpl = corpus.BY_ID[arg['template']]
-    spec = asn1tools.compile_string(tpl['text'], arg['codec'])
-    data = bytes.fromhex(arg['data'])
-    lines = [0]
-
-    def tr(frame, event, a):
-        import os
-        if not frame.f_code.co_filename.startswith(os.path.join(os.environ.get('VERIF_REPO', '/repo'), 'asn1tools')):
-            return None
-
-        def local(frame, event, a):
-            if event == 'line':
-                lines[0] += 1
-            return local
-        return local
-    sentinel_before = None
-    outcome = None
-    fp_before = fingerprint(spec)
-    sys.settrace(tr)
-    try:
-        try:
-            spec.decode(tpl['type'], data)
-            outcome = 'value'
-        except asn1tools.DecodeError:
-            outcome = 'DecodeError'
-        except MemoryError:
-            outcome = 'MemoryError'
-        except Exception as e:
-            outcome = 'other:' + type(e).__name__
-    finally:
-        sys.settrace(None)
-    return {'outcome': outcome, 'lines': lines[0], 'state_changed': fingerprint(spec) != fp_before}
-
-
 _SERVER = []
 
 
@@ -349,9 +271,19 @@ def replay(v):
         _SERVER.append(PristineServer())
     # CPU and address-space limits are armed in a forked child of a pristine interpreter that has
     # already imported everything: they measure the decode call only
-    r = _SERVER[0].call('checks.C08', '_replay_decode', dict(template=job['template'], codec=job['codec'], data=data),
+    r = _SERVER[0].call('lib.c08_replay', '_replay_decode', dict(template=job['template'], codec=job['codec'], data=data),
                         cpu_s=10, mem_mb=1024, wall_s=600)
     n = len(data) // 2
+    if r['status'] == 'cpu':
+        # a CPU overrun must be repeatable: a forked child can also be lost to the machine (scheduler,
+        # fork hazards), which is not a property of the decoder
+        for _again in range(2):
+            r2 = _SERVER[0].call('lib.c08_replay', '_replay_decode',
+                                 dict(template=job['template'], codec=job['codec'], data=data),
+                                 cpu_s=10, mem_mb=1024, wall_s=600)
+            if r2['status'] != 'cpu':
+                r = r2
+                break
     if r['status'] == 'cpu':
         return True, 'decode(%s) with codec %s of %s did not finish within 10 s CPU' % (
             data, job['codec'], job['template'])
